@@ -18,7 +18,7 @@ import random
 import sys
 import time
 
-from common import (KERNEL_TB, REPO, Driver, Report, build_driver, check_props, coq_make, known_findings, regen_all,
+from common import (KERNEL_TB, REPO, Driver, Report, build_driver, driver_binary_exists, check_props, coq_make, known_findings, regen_all,
                     scan_forbidden)
 
 PROP = "C01"
@@ -656,8 +656,11 @@ def main(tier, seed, replay=None):
     proof_ok = pr["ok"] and not forb and gen_err is None
 
     okd, dlog = build_driver(*BV_DRIVER)
-    drv = Driver("bvdriver") if okd else None
+    # if the regenerated model no longer compiles, the search goes on with the driver built from the last good tree
+    drv = Driver("bvdriver") if (okd or driver_binary_exists("bvdriver")) else None
     stats = collections.Counter()
+    if not okd and drv is not None:
+        stats["search_with_previously_built_driver"] = 1
     tv_mismatch = spec_fail = None
     corr_mismatch = sem_fail = None
     failing_program = None
